@@ -243,6 +243,12 @@ func genAgg(seed uint64, tier string, emphasis int) *plan.Plan {
 			if r.IntN(4) == 0 && nk > 1 {
 				// a message that carries records of several 5-tuples
 				bundle := plan.Op{K: "recs", F: []plan.Op{op}}
+				if r.IntN(3) == 0 {
+					// ... and a further record of the same 5-tuple in the same message: the next report of
+					// that flow, from either node (both nodes of an inter-node flow in one message too)
+					op1, _ := mkRec(k, true)
+					bundle.F = append(bundle.F, op1)
+				}
 				for _, k2 := range r.Perm(nk) {
 					if k2 != k && len(bundle.F) < 3 && pl.Cfg[fmt.Sprintf("v6%d", k2)] == pl.Cfg[fmt.Sprintf("v6%d", k)] && r.IntN(3) > 0 {
 						op2, _ := mkRec(k2, true)
@@ -250,7 +256,21 @@ func genAgg(seed uint64, tier string, emphasis int) *plan.Plan {
 					}
 				}
 				if len(bundle.F) > 1 {
+					// records of different 5-tuples in any order; the records of one 5-tuple keep theirs
+					same := bundle.F[0].A == bundle.F[1].A
+					first, second := bundle.F[0], bundle.F[1]
 					r.Shuffle(len(bundle.F), func(a, b int) { bundle.F[a], bundle.F[b] = bundle.F[b], bundle.F[a] })
+					if same {
+						var idx []int
+						for i, o := range bundle.F {
+							if o.A == first.A {
+								idx = append(idx, i)
+							}
+						}
+						if len(idx) == 2 {
+							bundle.F[idx[0]], bundle.F[idx[1]] = first, second
+						}
+					}
 					pl.Ops = append(pl.Ops, bundle)
 					continue
 				}
